@@ -17,11 +17,11 @@ def run(ctx):
     tot, outs = coreloop.validate(ctx, cs, ["C02.", "DRIFTX"], nshards=8)
     # replay: TLC-simulated behaviours of the design model executed with scripted physics on the real Stepper
     rcfgs = [("replay_none2", dict(NSlots=2, InitCap=3, Charge=False)), ("replay_charge2", dict(NSlots=2, InitCap=3, Charge=True)),
-             ("replay_none1", dict(NSlots=1, InitCap=2, Charge=False))]
+             ("replay_none3", dict(NSlots=3, InitCap=4, Charge=False)), ("replay_none1", dict(NSlots=1, InitCap=2, Charge=False))]
     if not q:
-        rcfgs += [("replay_none3", dict(NSlots=3, InitCap=4, Charge=False)), ("replay_charge3", dict(NSlots=3, InitCap=4, Charge=True)),
-                  ("replay_cap2", dict(NSlots=2, InitCap=2, Charge=False))]
-    rtot, rsamples = coreloop.replay(ctx, rcfgs, 40 if q else 800, ["C02.", "C01.", "C05.", "C16.", "C17."])
+        rcfgs += [("replay_charge3", dict(NSlots=3, InitCap=4, Charge=True)), ("replay_cap2", dict(NSlots=2, InitCap=2, Charge=False))]
+    rtot, rsamples = coreloop.replay(ctx, rcfgs, 160 if q else 1600, ["C02.", "C01.", "C05.", "C16.", "C17."], depth=90,
+                                     per_cfg=250 if q else 4000)
     ctx.coverage.update({"states": st, "transitions": tr, "traces_validated_against_impl": tot["runs"] + rtot["runs"],
                          "samples": coreloop.sample_records(outs), "evaluations": tot["steps"],
                          "distinct_nontrivial": tot["tracks"],
